@@ -681,7 +681,7 @@ static void vf_native(void)
                 canaries=[{"fn": "NeighMoving::_movingSectorDefine", "rx": r"angle = GV_PI \+ atan\(dy / dx\);", "rp": "angle = GV_PI - atan(dy / dx);", "expect": r"sampled"}])
 
 
-def unit_moving_candidates():
+def unit_moving_candidates(complete=False):
     """candidate filtering of NeighMoving::_moving: exactly the eligible samples reach the selection stage, with and without ball search"""
     BOOLS = "typedef _Bool bool;\n#define true 1\n#define false 0\n"
     pre = BOOLS + """
@@ -744,6 +744,37 @@ void vf_harness(void)
   VF_REACH();
 }
 """
+    if complete:
+        # known finding: with the ball-tree search the rejected candidates are not replaced by the next nearest qualifying samples
+        h = """
+void vf_harness(void)
+{
+  vf_havoc_inputs();
+  S_nech = NS; S_nmini = 0; _useBallSearch = 1; S_xvalid = W_xvalid; S_sector = 0; _dbgrid = 0;
+  __CPROVER_assume(1 <= W_nball && W_nball <= NS);                  /* nmaxi = W_nball */
+  for (int k = 0; k < NS; k++) { __CPROVER_assume(0 <= W_ball[k] && W_ball[k] < NS); for (int m = 0; m < k; m++) __CPROVER_assume(W_ball[m] != W_ball[k]); }
+  for (int k = 0; k < NS; k++) __CPROVER_assume(W_dist[k] >= 0. && W_dist[k] < 1.e6);
+  /* contract of Ball::getIndices (units C06.nheap_push / sort): the nmaxi nearest of all samples */
+  for (int k = 0; k < NS; k++) for (int m = 0; m < NS; m++) if (k < W_nball && m >= W_nball) __CPROVER_assume(W_dist[W_ball[k]] <= W_dist[W_ball[m]]);
+  int ranks[NS];
+  (void) NeighMoving_moving(0, ranks, 0.);
+  int reached = 0, qualify = 0;
+  for (int i = 0; i < NS; i++) {
+    if (ranks[i] >= 0) reached++;
+    if (W_active[i] && !W_undef[i] && !(W_xvalid && W_xv[i]) && W_bipt[i] && W_dok[i]) qualify++;
+  }
+  __CPROVER_assert(reached >= (qualify < W_nball ? qualify : W_nball), "ball-tree search: min(nmaxi, number of qualifying samples) samples reach the selection stage");
+  VF_REACH();
+}
+"""
+        return Unit("C06.moving.ball_search_complete", [f], prelude=pre, harness=h, pre_inputs=BOOLS, unwind=NS_MV + 2,
+                    inputs=[("bool", "W_xvalid"), ("int", "W_nball"), ("int", "W_ball", "3"), ("bool", "W_active", "3"),
+                            ("bool", "W_undef", "3"), ("bool", "W_xv", "3"), ("bool", "W_bipt", "3"), ("bool", "W_dok", "3"), ("double", "W_dist", "3"), ("int", "W_sect", "3")],
+                    checks=["--bounds-check", "--pointer-check"], backends=("minisat", "cadical"), timeout=600,
+                    bounded="3 data samples (unwinding assertions)",
+                    claim=("NeighMoving::_moving with the ball-tree search (real text): the neighbourhood holds the nmaxi closest qualifying samples also when some of the "
+                           "nmaxi nearest samples of the tree are rejected (masked, undefined, cross-validated target, pair checkers) — FAILS on the current tree: KNOWN FINDING"),
+                    assumptions=["BOUNDED stand-in (3 samples)", "Ball::getIndices through its contract (the nmaxi nearest of all samples)"])
     return Unit("C06.moving.candidates", [f], prelude=pre, harness=h, pre_inputs=BOOLS, unwind=NS_MV + 2,
                 inputs=[("bool", "W_useBall"), ("bool", "W_xvalid"), ("bool", "W_sector"), ("int", "W_nmini"), ("int", "W_nball"), ("int", "W_ball", "3"), ("bool", "W_active", "3"),
                         ("bool", "W_undef", "3"), ("bool", "W_xv", "3"), ("bool", "W_bipt", "3"), ("bool", "W_dok", "3"), ("double", "W_dist", "3"), ("int", "W_sect", "3")],
@@ -761,7 +792,7 @@ NS_MV = 3
 
 def units(tier):
     nmax = int(__import__("os").environ.get("VF_NMAX", 0)) or (6 if tier == "quick" else 10)
-    return [unit_nheap_push(nmax), unit_sort_order(nmax), unit_sort_multiset(min(nmax, 8)), unit_sector_nsmax(nmax, 3), unit_moving_select(nmax, 3), unit_sector_define(), unit_sector_sampled(), unit_moving_candidates()]
+    return [unit_nheap_push(nmax), unit_sort_order(nmax), unit_sort_multiset(min(nmax, 8)), unit_sector_nsmax(nmax, 3), unit_moving_select(nmax, 3), unit_sector_define(), unit_sector_sampled(), unit_moving_candidates(), unit_moving_candidates(complete=True)]
 
 
 META = {
